@@ -378,14 +378,6 @@ var sessFails = []sessFail{
 	{'l', `[1, 2,`, ""},
 }
 
-func hexJoin(texts []string) string {
-	hs := make([]string, len(texts))
-	for i, t := range texts {
-		hs[i] = hx(t)
-	}
-	return strings.Join(hs, "|")
-}
-
 func sessFailSpec(pos, mult int, f sessFail) string {
 	return fmt.Sprintf("%d.%d.%c.%s", pos, mult, f.kind, hx(f.text))
 }
